@@ -11,7 +11,7 @@ from ..harness import World, execute, place_summary, probe, violation
 
 LEVEL = "fault_enumeration"
 PLAN = {
-    "quick": {"mem": 56, "redis": 28, "rabbit": 28},  # tasks = scenarios x PARTS
+    "quick": {"mem": 56, "redis": 44, "rabbit": 36},  # tasks = scenarios x PARTS
     "thorough": {"mem": 256, "redis": 256, "rabbit": 256},
 }
 BUDGET = {"quick": 55, "thorough": 1500}
@@ -65,10 +65,27 @@ def gen(rng, broker, tier):
         if j["queue"] == "q1":
             j["name"] = "b0"
         jobs.append(j)
+    ml = rng.choice([None, None, None, 1, 2, 3])
+    tl = rng.choice([1, 2, 3, 4, 1000])
+    if broker != "mem" and rng.random() < 0.4:
+        # a worker that stops by its message limit with a backlog larger than its prefetch buffer: the consumer's buffer is
+        # full and its background fetch holds one more message when the consumers are finished
+        ml, tl = rng.choice([1, 2]), rng.choice([1, 2])
+        while len(jobs) < 6:
+            jobs.append(dict(jobs[-1], id=f"j{len(jobs)}"))
+        for j in jobs:
+            j.update({"at_us": 0, "queue": "q0", "name": "a0", "prio": 5})
+        for j in jobs[:ml]:
+            # the counted executions last long enough for the prefetch to fill up
+            j.update({"beh": [{"do": "return", "dur_us": rng.randint(600_000, 1_500_000)}], "timeout_s": 600})
+            j.pop("retries", None)
+            j.pop("by_s", None)
     return {
         # observers must not change what a stop does: part of the scenarios run with (trivial) middleware subscribers
         "subscribers": rng.choice([[], [], ["after_consume"], ["after_consume", "before_ack", "after_requeue", "after_reject"]]),
-        "jobs": jobs, "graceful_s": graceful, "tasks_limit": rng.choice([1, 2, 3, 4, 1000]),
+        # the other way a worker is told to stop: after M executions (the stop request of the sweep then comes on top)
+        "messages_limit": ml,
+        "jobs": jobs, "graceful_s": graceful, "tasks_limit": tl,
         "end_us": rng.choice([600_000, 1_200_000, 2_500_000]),
         "policy_us": [rng.choice([0, 50_000, 300_000, 5_000_000])],
         "knobs": {"step_cost": rng.choice([0, 1, 1, 3, "rand"]),
@@ -110,7 +127,8 @@ async def _main(sim, sc, out):
         {"name": "a0", "queue": "q0", "policy": pol}, {"name": "a1", "queue": "q0", "policy": pol},
         {"name": "b0", "queue": "q1", "policy": pol}])
     graceful = 3600.0 if (fault and fault["kind"] == "force") else sc["graceful_s"]
-    w = r.Worker(routers=[router], tasks_limit=sc["tasks_limit"], graceful_shutdown_time=graceful, _connection=connw)
+    w = r.Worker(routers=[router], tasks_limit=sc["tasks_limit"], graceful_shutdown_time=graceful, _connection=connw,
+                 **({"messages_limit": sc["messages_limit"]} if sc.get("messages_limit") else {}))
     import repid.worker as _rw
 
     runners: list = []
